@@ -420,3 +420,62 @@ func c11ChanTwoAbandoned(r *Run) {
 		r.Violate("chanabandoned.blocked", "ops", "a unary call with a 300 ms deadline neither completed nor returned DeadlineExceeded: it is blocked beyond its own context", in, goroutineDump(), "DeadlineExceeded after about 300 ms")
 	}
 }
+
+// c11HttpDeadlineWrite: over the HTTP transport. A client-streaming handler has stopped consuming (its
+// caller's second message holds the server's read loop), so a unary call with a 300 ms deadline cannot
+// even be delivered: its POST is pending when the deadline passes, and it comes back with
+// DeadlineExceeded. That is one caller giving up — the connection is everybody's: once the handler
+// lets go, a unary call started afterwards is served.
+func c11HttpDeadlineWrite(r *Run) {
+	if !r.Want("httpdeadline") {
+		return
+	}
+	t, err := newTopo("http", nil, nil)
+	if err != nil {
+		r.Count("httpdeadline.no_listener")
+		return
+	}
+	defer t.close()
+	in := map[string]any{"transport": "http", "blocked_by": "a client-stream whose handler does not consume", "victim": "unary call with a 300 ms deadline whose request cannot be delivered"}
+	r.Progress("httpdeadline", in)
+	gate := make(chan struct{})
+	t.impl.SetUnary(func(ctx context.Context, req []byte) ([]byte, error) { return unaryF(req), nil })
+	t.impl.SetStream(func(m string, ss grpc.ServerStream) error {
+		<-gate
+		for {
+			if _, err := recvB(ss); err != nil {
+				break
+			}
+		}
+		return sendB(ss, []byte("sum"))
+	})
+	sctx, scancel := context.WithTimeout(context.Background(), 4*hangTimeout)
+	defer scancel()
+	cs, err := t.cc.NewStream(sctx, descCli, mCliStream)
+	if err != nil {
+		r.Violate("httpdeadline.setup", "ops", "stream could not be opened", in, err.Error(), nil)
+		return
+	}
+	go func() {
+		sendB(cs, []byte("m1")) // fills the handler's queue
+		sendB(cs, []byte("m2")) // holds the server's read loop
+	}()
+	time.Sleep(100 * time.Millisecond)
+	vctx, vcancel := context.WithTimeout(context.Background(), 300*time.Millisecond)
+	_, verr := callUnary(vctx, t.cc, []byte("victim"))
+	vcancel()
+	if verr == nil {
+		r.Count("c11.httpdeadline.victim_served")
+	}
+	close(gate)
+	time.Sleep(50 * time.Millisecond)
+	pctx, pcancel := context.WithTimeout(context.Background(), c11ProbeDeadline)
+	got, perr := callUnary(pctx, t.cc, []byte("after"))
+	pcancel()
+	r.Eval("httpdeadline", true)
+	r.Count("c11.httpdeadline")
+	if perr != nil || string(got) != string(unaryF([]byte("after"))) {
+		r.Violate("httpdeadline.dead", "ops", "after ONE caller's deadline passed while its request was waiting to be delivered, the connection no longer serves other calls", in, fmt.Sprintf("victim: %v; later call: %v", verr, perr), "the later call is served")
+	}
+	cs.CloseSend()
+}
